@@ -11,7 +11,9 @@ REGISTRY = {
                       'CLIENT dispatch of handle_message are under contract '
                       '(no exception escapes, Inv_srv kept, answer only to '
                       'the requester, other clients untouched, answer table '
-                      'per task state); all obligations are discharged by '
+                      'per task state), and so is the dispatch of ERROR and '
+                      'LOG messages from below to the handlers that forward '
+                      'them to the owning client; all obligations are discharged by '
                       'z3 for every state and request, hence for every '
                       'request history by induction over handled messages',
         'level_note': 'assumes the external models of Connection/Queue, '
@@ -50,7 +52,7 @@ REGISTRY = {
                       "runtime's own assertion cannot fire, every task of a "
                       'batch is forwarded in exactly one message per hop, '
                       'id-range arithmetic picks the unique responsible '
-                      'employee; discharged by z3 for all inputs',
+                      'employee; discharged by z3 for all inputs; SUBMIT_BATCH and UPDATE messages from below are dispatched to exactly these functions (dispatch contracts)',
         'level_note': 'assign_tasks (random.shuffle, sorted, swap loop) is '
                       'used through an assumed contract that is only '
                       'checked bounded; preconditions about the peer (idle '
